@@ -197,7 +197,7 @@ def run(tier, seed, drv):
         evals += r["n"]
         if r["bad"]:
             fb = r["first_bad"]
-            viol.append({"engine": "destructure", "func": "destructure!", "replay": f"prog|{r['id']}", "case": "destructure! " + fb["case"], "expected": fb["std"], "observed": fb["konst"], "class": "mismatch"})
+            viol.append({"engine": "destructure", "func": "destructure!", "replay": f"prog|{r['id']}", "case": "destructure! " + ((names[r["id"]] + ": " + fb["case"]) if r.get("crash") else fb["case"]), "expected": fb["std"], "observed": fb["konst"], "class": "mismatch"})
     rep["violations"] = viol
     rep["violations_total"] = len(viol)
     rep["overflow_classified"] = True
